@@ -115,10 +115,15 @@ func VerifDump(s *PfcpServer) string {
 		sess = append(sess, fmt.Sprintf("%x;%x;%s;P=%s;F=%s;Q=%s;U=%s;B=%s;K=%s", x.LocalID, x.RemoteID, nid,
 			dash(pd), dash(fa), dash(qe), dash(ur), dash(ba), dash(qs)))
 	}
-	var rx, tx []string
-	for k := range s.rxTrans {
+	var rx, tx, rxu []string
+	for k, t := range s.rxTrans {
 		rx = append(rx, k)
+		// no retention timer running: nothing will ever release the entry
+		if t == nil || t.timer == nil {
+			rxu = append(rxu, k)
+		}
 	}
+	sort.Strings(rxu)
 	for k, t := range s.txTrans {
 		armed := "a" // a retransmission timer is running: the request will be retried or abandoned
 		if t.timer == nil {
@@ -146,7 +151,7 @@ func VerifDump(s *PfcpServer) string {
 	if len(sess) > 0 {
 		sj = strings.Join(sess, "|")
 	}
-	return fmt.Sprintf("free=%s slots=%d sess=%s nodes=%s rx=%s tx=%s txseq=%x", dash(free), len(s.lnode.sess), sj, dash(nodes), dash(rx), dash(tx), s.txSeq)
+	return fmt.Sprintf("free=%s slots=%d sess=%s nodes=%s rx=%s tx=%s txseq=%x rxu=%s", dash(free), len(s.lnode.sess), sj, dash(nodes), dash(rx), dash(tx), s.txSeq, dash(rxu))
 }
 
 // VerifClassify: how the event loop classifies a datagram (message.Parse, isRequest, isResponse).
